@@ -13,6 +13,7 @@
 Both are abstractions of the resolved MIR, not of the text: renaming, reformatting, reordering independent statements,
 `if a && b` vs nested ifs, `match` vs `if let` leave them unchanged.
 """
+import re
 from collections import defaultdict
 
 from .arms import NOISE_CALLS
@@ -135,7 +136,12 @@ def control_deps(fn):
     return closure, direct
 
 
+_CLOSURE = re.compile(r'\{(closure|coroutine|async [a-z]+)@[^{}]*\}')
+
+
 def _short_ty(s):
+    # closure types print their source position: position- and checkout-dependent, never part of a fingerprint
+    s = _CLOSURE.sub(r'{\1}', s)
     s = s.replace('&mut ', '').replace('&', '')
     head = s.split('<', 1)[0]
     return head.split('::')[-1]
